@@ -1,11 +1,16 @@
 // C39 — one interpreter can safely be used from many goroutines.
 // M: EvalerShared.tla: as-is configuration violates NoUnsyncMapAccess / AtMostOnce / NoPartialVisible,
-//    the switched configurations satisfy them (model sanity).
+//
+//	the switched configurations satisfy them (model sanity).
+//
 // G: TLC's counterexample schedules are replayed on the REAL Evaler with gates at the verifTrace
-//    points (goroutines parked immediately before their access to Evaler.modules / around module
-//    execution); a schedule the real code reproduces is a rejected real behaviour.
+//
+//	points (goroutines parked immediately before their access to Evaler.modules / around module
+//	execution); a schedule the real code reproduces is a rejected real behaviour.
+//
 // V: free-running concurrent evaluations on one Evaler in a child process (a runtime fatal error kills
-//    it): declarations must not be lost, module code must run once; judged by a TLC case walker.
+//
+//	it): declarations must not be lost, module code must run once; judged by a TLC case walker.
 package main
 
 import (
@@ -166,9 +171,11 @@ type sched struct {
 	Result string   `json:"result"`
 }
 
-// overlap: A parks immediately before a write to the module table; can B get to its own access
-// (iteration / read / write) while A sits there? With a common lock held across the window it cannot.
-func overlap(c *lib.Ctx, kindB string) (sched, error) {
+// overlap: A parks immediately before its access to the module table (kindA); can B get to its own
+// access (kindB) while A sits there? One of the two accesses writes, so with a common lock held
+// across each access window B cannot; if B arrives, two goroutines are inside access windows at
+// once, one of them writing.
+func overlap(c *lib.Ctx, kindA, kindB string) (sched, error) {
 	w, err := newWorld([]string{"ma", "mb"})
 	if err != nil {
 		return sched{}, lib.Infra("%v", err)
@@ -177,32 +184,30 @@ func overlap(c *lib.Ctx, kindB string) (sched, error) {
 	ev := w.evaler()
 	gt := installGates()
 	defer func() { eval.VerifTrace = nil }()
-	s := sched{Name: "overlap:write/" + kindB}
-	gA, doneA := gt.start("modules.write", func() { elv.RunSync(ev, "use ma") })
+	s := sched{Name: "overlap:" + kindA + "/" + kindB}
+	access := func(kind, mod string) (string, func()) {
+		switch kind {
+		case "iter":
+			return "modules.iter", func() { ev.Check(parse.Source{Name: "[c]", Code: "put a"}, nil) }
+		case "read":
+			return "modules.read", func() { elv.RunSync(ev, "use "+mod) }
+		default:
+			return "modules.write", func() { elv.RunSync(ev, "use "+mod) }
+		}
+	}
+	pointA, fA := access(kindA, "ma")
+	gA, doneA := gt.start(pointA, fA)
 	a, ok := waitArrival(gt, gA, 10*time.Second)
 	if !ok {
-		return s, lib.Infra("goroutine A never reached modules.write")
+		return s, lib.Infra("goroutine A never reached %s", pointA)
 	}
-	s.Steps = append(s.Steps, fmt.Sprintf("A parked before modules.write (mu held by someone: %v)", a.held))
-	var pointB string
-	var fB func()
-	switch kindB {
-	case "iter":
-		pointB, fB = "modules.iter", func() { ev.Check(parse.Source{Name: "[c]", Code: "put a"}, nil) }
-	case "read":
-		pointB, fB = "modules.read", func() { elv.RunSync(ev, "use mb") }
-	default:
-		pointB, fB = "modules.write", func() { elv.RunSync(ev, "use mb") }
-	}
+	s.Steps = append(s.Steps, fmt.Sprintf("A parked before %s (mu held by someone: %v)", pointA, a.held))
+	pointB, fB := access(kindB, "mb")
 	gB, doneB := gt.start(pointB, fB)
 	b, reached := waitArrival(gt, gB, reach)
 	if reached {
-		s.Steps = append(s.Steps, fmt.Sprintf("B parked before %s while A is still inside its write window (mu held by someone: %v)", pointB, b.held))
-		if !a.held || !b.held {
-			s.Result = "overlap"
-		} else {
-			s.Result = "overlap-under-lock" // cannot happen with a write lock; reported as machinery problem
-		}
+		s.Steps = append(s.Steps, fmt.Sprintf("B parked before %s while A is still inside its %s window (mu held by someone: %v)", pointB, kindA, b.held))
+		s.Result = "overlap"
 	} else {
 		s.Steps = append(s.Steps, "B did not reach its access while A is parked")
 		s.Result = "excluded"
@@ -315,7 +320,7 @@ func run(c *lib.Ctx) error {
 	// ---- M
 	type cfg struct {
 		name, locked, once, inv string
-		expectViolation     bool
+		expectViolation         bool
 	}
 	cfgs := []cfg{
 		{"asis-unsync", "FALSE", "FALSE", "NoUnsyncMapAccess", true},
@@ -343,8 +348,8 @@ func run(c *lib.Ctx) error {
 
 	// ---- G: replay the candidates on the real code
 	var scheds []sched
-	for _, kb := range []string{"iter", "read", "write"} {
-		s, err := overlap(c, kb)
+	for _, ab := range [][2]string{{"write", "iter"}, {"write", "read"}, {"write", "write"}, {"iter", "write"}, {"read", "write"}} {
+		s, err := overlap(c, ab[0], ab[1])
 		if err != nil {
 			return err
 		}
@@ -368,8 +373,6 @@ func run(c *lib.Ctx) error {
 		switch s.Result {
 		case "overlap":
 			c.Reject("evaler:modules-map-unsynchronised", "schedule "+s.Name+" reproduced on the real Evaler: two goroutines inside access windows on Evaler.modules, one writing, no common lock: "+strings.Join(s.Steps, "; "), s)
-		case "overlap-under-lock":
-			return lib.Infra("two goroutines reported holding the write lock at once: %v", s)
 		case "evaluated-twice":
 			c.Reject("evaler:concurrent-use-evaluates-twice", "schedule reproduced on the real Evaler: "+strings.Join(s.Steps, "; "), s)
 		case "partial-namespace-observed":
